@@ -49,7 +49,7 @@ pub fn spec_for3(property: &str) -> Option<CheckSpec> {
             CheckSpec {
                 property: "C13".into(),
                 level: "exploration",
-                profiles: vec![p("live", 12), p("conc-burst", 1), p("conc", 1)],
+                profiles: vec![p("live", 12), p("live+closerace", 4), p("live+slowdump", 3), p("conc-burst", 1), p("conc", 1)],
                 thorough_extra: vec![],
                 quick_runs: 8_000,
                 thorough_runs: 400_000,
